@@ -13,7 +13,8 @@ Property theorems about the mirror `Store/StageGlueModel.lean` of the GLUE of th
 `Store/LeafUpdModel.lean` / `Store/BranchUpdModel.lean`; their stage theorems (`T1_leaf_update_is_kvApply`,
 `T1_branch_update_is_kvApply`, `T16_branch_level_closed`) are composed here.
 
-Vocabulary: `TreeOK t` — a non-empty beatree: `LeafUpd.DbOK` leaves, none empty, the first under the zero key; a
+Vocabulary: `TreeOK t` — a beatree, the EMPTY one (no leaf, no branch node: a fresh store) included: `LeafUpd.DbOK` leaves,
+none empty, the first under the zero key; a
 `BranchUpd.DbOK kfReal` branch level; the branch level lists exactly (separator, page number) of the leaves.
 `UpdateOK` — `Store/StageGlueUpdate.lean`.  `lnFresh k` / `bbnFresh k` = the page the `k`-th `allocate()` of the sync
 returns in the leaf / bbn store; `a0` = the pages `overflow::chunk` took for the `InsertOverflow` values of the batch.
@@ -25,9 +26,10 @@ open Nomt.BranchUpd (kfReal)
 
 variable {V : Type} [CellSize V]
 
-/-- **T1.update_is_kvApply** — the whole `ops::update` (both stages, one worker, the code as it is) on a well-formed
-non-empty tree with content `S` and ANY ascending batch `cs` (also the empty one, one that changes no leaf, one that
-empties the first leaf, a run of leaves or the whole tree):
+/-- **T1.update_is_kvApply** — the whole `ops::update` (both stages, one worker, the code as it is) on EVERY well-formed
+tree — the empty tree of a fresh or emptied store included — with content `S` and ANY ascending batch `cs` (also the empty
+one, one that changes no leaf — finding F11's batch on the empty tree —, one that empties the first leaf, a run of leaves or
+the whole tree, one that refills an emptied tree):
 * reaches no panic site — none of the two updaters, not `assert!(entry.deleted.is_none())` of `NodesTracker::delete`, not the
   `assert!`s of `filter_*_changeset` nor `branch_changeset.len() - 1` (the branch twin of F11's site), not the `unwrap` /
   indexings of `enforce_first_leaf_separator` — and every loop terminates;
@@ -90,6 +92,84 @@ theorem T1_filter_three_equal_keys_example :
     ExtRange.filterCs false ([] : List (Nat × Option Nat)) = none := by
   decide
 
+/-! ## finding F11: the first commit of a store that changes no leaf -/
+
+/-- the empty tree of a fresh store -/
+def emptyTree : Tree Nat := { index := [], leaves := [], lpn := fun _ => 0 }
+
+theorem emptyTree_ok : TreeOK emptyTree where
+  leaves := ⟨trivial, (by intro l hl; cases hl), (by intro l hl; cases hl)⟩
+  index := trivial
+  level := rfl
+
+/-- **T1.F11_first_commit_changes_no_leaf** — finding F11 as a theorem about the repaired code: on the EMPTY tree a batch
+that only deletes (absent) keys — `Write(None)` of keys that were never written, the first commit of a store — goes through
+`ops::update` without reaching a panic site: the leaf changeset is empty, `filter_leaves_changeset` (with
+`saturating_sub`) returns it, the branch stage returns early, nothing is allocated or released, the tree stays empty. -/
+theorem T1_F11_first_commit_changes_no_leaf {V : Type} [CellSize V] (pagesOf : V → List Nat) (lnFresh bbnFresh : Nat → Nat)
+    (t : Tree V) (ht : TreeOK t) (hempty : t.leaves = []) (cs : List (Nat × Option (V × Bool))) (lo : Nat)
+    (hcs : LeafUpd.ChOK (2 ^ 256) lo cs) (hdel : ∀ c ∈ cs, c.2 = none) :
+    ∃ o, update LeafUpd.sepReal kfReal pagesOf lnFresh bbnFresh false t cs 0 = some o ∧
+      o.leafLevel = [] ∧ BranchUpd.flat o.index = [] ∧ o.lnFreed = [] := by
+  obtain ⟨o, e, h⟩ := update_spec pagesOf lnFresh bbnFresh 0 t cs lo ht hcs (fun _ => rfl)
+  have hflat : LeafUpd.flatOut o.leafLevel = [] := by
+    rw [h.content, hempty]
+    have key : ∀ (cs : List (Nat × Option (V × Bool))), (∀ c ∈ cs, c.2 = none) →
+        applyAll ([] : List (Entry V)) cs = [] := by
+      intro cs
+      induction cs with
+      | nil => intro _; rfl
+      | cons c r ih =>
+        intro hd
+        show applyAll (LeafUpd.write1 [] c.1 c.2) r = []
+        rw [hd c (by simp)]
+        exact ih (fun c' hc' => hd c' (by simp [hc']))
+    exact key cs hdel
+  have hlvl : o.leafLevel = [] := by
+    cases hl : o.leafLevel with
+    | nil => rfl
+    | cons a r =>
+      exfalso
+      have hne : a.ents ≠ [] := by
+        cases a with
+        | old l => have := h.olds l (by rw [hl]; simp); rw [hempty] at this; cases this
+        | new l => exact (h.news l (by rw [hl]; simp)).1
+      rw [hl] at hflat
+      have : a.ents = [] := by
+        have e2 : LeafUpd.flatOut (a :: r) = a.ents ++ LeafUpd.flatOut r := rfl
+        rw [e2] at hflat
+        exact (List.append_eq_nil_iff.1 hflat).1
+      exact hne this
+  refine ⟨o, e, hlvl, by rw [h.level, hlvl]; rfl, ?_⟩
+  obtain ⟨fl, h1, h2⟩ := h.ln_freed
+  rw [hempty] at h1 h2
+  simp only [List.filter_nil, List.map_nil] at h2
+  rw [h1, List.Perm.eq_nil h2]
+  simp [LeafUpd.flat, LeafUpd.ovfLog]
+
+/-- **T1.F11_len_minus_one_counterexample** (kernel-checked) — the code BEFORE the repair of F11 (flag `f11` of the mirror:
+`filter_leaves_changeset` computes `leaf_changeset.len() - 1` the way `filter_branch_changeset` still does): the same first
+commit — the empty tree, one deletion of an absent key — reaches the underflow (`none`), while the code as it is returns the
+empty tree; on a non-empty changeset the two variants agree. -/
+theorem T1_F11_len_minus_one_counterexample :
+    update LeafUpd.sepReal kfReal (fun _ : Nat => []) (fun k => 100 + k) (fun k => 200 + k) false emptyTree
+      [(7, none)] 0 true = none ∧
+    (update LeafUpd.sepReal kfReal (fun _ : Nat => []) (fun k => 100 + k) (fun k => 200 + k) false emptyTree
+      [(7, none)] 0).map (fun o => (o.leafChangeset, o.index.length, o.lnFreed)) = some ([], 0, []) ∧
+    (update LeafUpd.sepReal kfReal (fun _ : Nat => []) (fun k => 100 + k) (fun k => 200 + k) false emptyTree
+      [(7, some (20, false))] 0 true).map (fun o => (o.leafChangeset, (BranchUpd.flat o.index).map fun e => (e.key, e.val))) =
+      some ([(0, some 100)], [(0, 100)]) := by
+  decide +kernel
+
+/-- the first commit of a store that writes: the hypotheses of `T1_update_is_kvApply` hold on the empty tree, and
+(kernel-evaluated) two inserted keys give ONE leaf under the ZERO key at the first allocated page and one branch node -/
+example : TreeOK emptyTree ∧
+    (update LeafUpd.sepReal kfReal (fun _ : Nat => []) (fun k => 100 + k) (fun k => 200 + k) false emptyTree
+      [(7, some (20, false)), (9, some (30, false))] 0).map
+      (fun o => (o.leafChangeset, (BranchUpd.flat o.index).map (fun e => (e.key, e.val)), o.index.map (·.bbn))) =
+      some ([(0, some 100)], [(0, 100)], [200]) :=
+  ⟨emptyTree_ok, by decide +kernel⟩
+
 /-! ## non-vacuity and the seeded change at the level of the whole update -/
 
 open Nomt.BranchUpd (exKey exNode)
@@ -119,7 +199,6 @@ theorem exTree_ok : TreeOK exTree where
         | (intro c hc; cases hc)
     nonempty := by decide
     zero := by intro l hl; simp [exTree] at hl; subst hl; rfl }
-  ne := by simp [exTree]
   index := by decide +kernel
   level := by decide +kernel
 
